@@ -461,7 +461,9 @@ pub fn check(id: &str, tier: Tier) -> i32 {
     let t0 = Instant::now();
     let base = base_seed();
     println!("VERIF_SEED={} property={} tier={:?}", base, id, tier);
-    let total = (prop.budget)(tier);
+    // VERIF_SCALE multiplies the run budget (developer sweeps); registered commands leave it unset
+    let scale: u64 = std::env::var("VERIF_SCALE").ok().and_then(|s| s.parse().ok()).unwrap_or(1).max(1);
+    let total = (prop.budget)(tier) * scale;
     let n = jobs().max(1) as u64;
     let exe = std::env::current_exe().expect("current exe");
     let tmp = verif_dir().join("sim/target/run");
